@@ -27,10 +27,14 @@ def run_one(m, verbose=False):
     d = scratch()
     try:
         edits = m['edits'] if 'edits' in m else [(m['file'], m['old'], m['new'])]
-        for file, old, new in edits:
+        for ed in edits:
+            file, old, new = ed[:3]
             p = os.path.join(d, file)
             s = open(p).read()
             n = s.count(old)
+            if len(ed) > 3 and ed[3] == 'all' and n >= 1:
+                open(p, 'w').write(s.replace(old, new))
+                continue
             if n != m.get('count', 1):
                 return m, 'SKIP', 'pattern occurs %d times in %s (expected %d): %r' % (n, file, m.get('count', 1), old[:60])
             s = s.replace(old, new) if m.get('count', 1) != 1 or True else s
